@@ -119,6 +119,10 @@ func runS1(t *testing.T, spec s1Spec) {
 		}
 		if errors.Is(err, vh.ErrAbort) {
 			ev.Aborted()
+			classes = append(classes, "ended-on-unjudged-facet:"+r.AbortFacet)
+			if os.Getenv("VERIF_DEBUG_ABORT") != "" {
+				fmt.Fprintf(os.Stderr, "ABORT [%s] %s\n", r.AbortFacet, r.AbortMsg)
+			}
 			ev.Case(sigOf(r), false, classes, nil)
 			return
 		}
